@@ -259,44 +259,56 @@ def onTransmit (s : State) (c : Constraint) (m : Mode) (now : Nat) (fits : Bool)
   else if fits then some ⟨ackDelay s now, AckRanges.ackRanges s.ackRanges, s.ecnCounts.asOption⟩
   else none
 
+/-- the PING decision of `on_transmit_complete` (only evaluated when the packet is not yet
+    ack-eliciting): `(can_transmit || can_retransmit) && transmissions_since_elicitation >=
+    ack_elicitation_interval && context.write_frame(&Ping).is_some()` -/
+def writesPing (s : State) (c : Constraint) (ctxAckEliciting pingFits : Bool) : Bool :=
+  !ctxAckEliciting && ((c.canTransmit || c.canRetransmit) &&
+    decide (s.transmissionsSinceElicitation ≥ s.ackSettings.ackElicitationInterval) && pingFits)
+
 /-- `on_transmit_complete(context)`; `none` = the `.expect(..)` on `ack_ranges.max_value()` panics.
     `ctxAckEliciting` = `context.ack_elicitation().is_ack_eliciting()`, `pingFits` =
-    `context.write_frame(&Ping).is_some()`. Second component: a PING frame was written. -/
+    `context.write_frame(&Ping).is_some()`. Second component: a PING frame was written.
+    Statement order of the Rust function: cancel the timer; decide the PING (`is_ack_eliciting`), else
+    `transmissions_since_elicitation += 1`; `largest_received_packet_number_acked = max_value()`;
+    if ack-eliciting reset the counter and record the transmission; `transmission_state.on_transmit`;
+    `processed_packets_since_transmission = 0`. Every field is written at most once per path, so the
+    sequence is one record update. -/
 def onTransmitComplete (s : State) (c : Constraint) (ownPn : Nat) (ctxAckEliciting pingFits : Bool) : Option (State × Bool) :=
-  -- self.ack_delay_timer.cancel()
-  let s := { s with ackDelayTimer := none }
-  let writePing : Bool := !ctxAckEliciting && ((c.canTransmit || c.canRetransmit) &&
-      decide (s.transmissionsSinceElicitation ≥ s.ackSettings.ackElicitationInterval) && pingFits)
-  let isAckEliciting := ctxAckEliciting || writePing
-  let s := if !ctxAckEliciting && !writePing then
-      { s with transmissionsSinceElicitation := satInc s.transmissionsSinceElicitation } else s
   match s.ackRanges.maxValue with
   | none => none
   | some mx =>
-    let s := { s with largestReceivedPacketNumberAcked := mx }
-    let s := if isAckEliciting then
-        { s with transmissionsSinceElicitation := 0
-                 ackElicitingTransmissions := s.ackElicitingTransmissions.onTransmit ⟨ownPn, mx⟩ }
-      else s
-    some ({ s with transmissionState := s.transmissionState.onTransmit
-                   processedPacketsSinceTransmission := 0 }, writePing)
+    let ping := writesPing s c ctxAckEliciting pingFits
+    let isAckEliciting := ctxAckEliciting || ping
+    some ({ s with
+      ackDelayTimer := none
+      transmissionsSinceElicitation := if isAckEliciting then 0 else satInc s.transmissionsSinceElicitation
+      largestReceivedPacketNumberAcked := mx
+      ackElicitingTransmissions :=
+        if isAckEliciting then s.ackElicitingTransmissions.onTransmit ⟨ownPn, mx⟩ else s.ackElicitingTransmissions
+      transmissionState := s.transmissionState.onTransmit
+      processedPacketsSinceTransmission := 0 }, ping)
 
-/-- `on_packet_ack(_, ack_set)`; `none` = `.expect("The range should always shrink the interval length")` -/
+/-- `on_packet_ack(_, ack_set)`; `none` = `.expect("The range should always shrink the interval length")`.
+    `transmission_state` is deliberately NOT notified ("will be automatically notified in
+    `on_processed_packet`"). -/
 def onPacketAck (s : State) (a : AckSet) : Option State :=
-  match s.ackElicitingTransmissions.onUpdate a with
-  | (tx, some r) =>
-    match s.ackRanges.remove r with
-    | (ranges, .ok _) => some { s with ackElicitingTransmissions := tx, ackRanges := ranges }
-    | (_, .error _) => none
-  | (tx, none) => some { s with ackElicitingTransmissions := tx }
+  match (s.ackElicitingTransmissions.onUpdate a).2 with
+  | some r =>
+    match (s.ackRanges.remove r).2 with
+    | .ok _ => some { s with ackElicitingTransmissions := (s.ackElicitingTransmissions.onUpdate a).1
+                             ackRanges := (s.ackRanges.remove r).1 }
+    | .error _ => none
+  | none => some { s with ackElicitingTransmissions := (s.ackElicitingTransmissions.onUpdate a).1 }
 
-/-- `on_packet_loss(ack_set)` -/
+/-- `on_packet_loss(ack_set)`: `on_update(&ack_ranges)` then `activate()` when one of the recorded
+    transmissions is in the set -/
 def onPacketLoss (s : State) (a : AckSet) : State :=
-  match s.ackElicitingTransmissions.onUpdate a with
-  | (tx, some _) =>
-    { s with ackElicitingTransmissions := tx
+  match (s.ackElicitingTransmissions.onUpdate a).2 with
+  | some _ =>
+    { s with ackElicitingTransmissions := (s.ackElicitingTransmissions.onUpdate a).1
              transmissionState := (s.transmissionState.onUpdate s.ackRanges).activate }
-  | (tx, none) => { s with ackElicitingTransmissions := tx }
+  | none => { s with ackElicitingTransmissions := (s.ackElicitingTransmissions.onUpdate a).1 }
 
 /-- the part of `ProcessedPacket` the ack manager reads -/
 structure Processed where
@@ -322,32 +334,40 @@ def orderedLargest (r : IvSet) (pn : Nat) : Bool × Bool :=
 def shouldActivate (isOrdered isLargest : Bool) (p : Processed) (processedSince : Nat) : Bool :=
   !isLargest || !isOrdered || (p.ecn == .ce) || decide (processedSince ≥ packetTolerance) || p.pathChallengeOnActivePath
 
-/-- `on_processed_packet`; the `Outcome` is what `insert_packet_number` reported (events) -/
-def onProcessedPacket (s : State) (p : Processed) : State × AckRanges.Outcome :=
-  let (isOrdered, isLargest) := orderedLargest s.ackRanges p.pn
-  let (ranges, outcome) := AckRanges.insertPn s.ackRanges p.pn
-  let s := { s with ackRanges := ranges, ecnCounts := s.ecnCounts.increment p.ecn }
-  let s := { s with transmissionState := s.transmissionState.onUpdate s.ackRanges
-                    processedPacketsSinceTransmission := satInc s.processedPacketsSinceTransmission }
-  let s := if isLargest then { s with largestReceivedPacketNumberAt := some p.now } else s
-  let s :=
-    if p.ackEliciting then
-      if shouldActivate isOrdered isLargest p s.processedPacketsSinceTransmission then
-        { s with transmissionState := s.transmissionState.activate }
-      else if s.ackDelayTimer.isNone then
-        { s with ackDelayTimer := some (p.now + s.ackSettings.maxAckDelay) }
-      else s
-    else s
-  -- `if self.ack_delay_timer.poll_expiration(now).is_ready()`
-  let s := if timerExpired s.ackDelayTimer p.now then
-      { s with ackDelayTimer := none, transmissionState := s.transmissionState.activate } else s
-  (s, outcome)
-
-/-- `on_timeout(timestamp)` -/
+/-- `on_timeout(timestamp)`: `if self.ack_delay_timer.poll_expiration(timestamp).is_ready()` -/
 def onTimeout (s : State) (now : Nat) : State :=
   if timerExpired s.ackDelayTimer now then
     { s with ackDelayTimer := none, transmissionState := s.transmissionState.activate }
   else s
+
+/-- `on_processed_packet`, first part: `insert_packet_number` (the result is kept whatever it
+    reports), `ecn_counts.increment`, `transmission_state.on_update(&ack_ranges)`,
+    `processed_packets_since_transmission += 1`, `if is_largest { largest_received_packet_number_at = now }` -/
+def procInsert (s : State) (p : Processed) : State :=
+  { s with
+    ackRanges := (AckRanges.insertPn s.ackRanges p.pn).1
+    ecnCounts := s.ecnCounts.increment p.ecn
+    transmissionState := s.transmissionState.onUpdate (AckRanges.insertPn s.ackRanges p.pn).1
+    processedPacketsSinceTransmission := satInc s.processedPacketsSinceTransmission
+    largestReceivedPacketNumberAt :=
+      if (orderedLargest s.ackRanges p.pn).2 then some p.now else s.largestReceivedPacketNumberAt }
+
+/-- second part: `if processed_packet.is_ack_eliciting() { … activate / arm the delay timer … }` -/
+def procSchedule (s : State) (p : Processed) (isOrdered isLargest : Bool) : State :=
+  if p.ackEliciting then
+    if shouldActivate isOrdered isLargest p s.processedPacketsSinceTransmission then
+      { s with transmissionState := s.transmissionState.activate }
+    else if s.ackDelayTimer.isNone then
+      { s with ackDelayTimer := some (p.now + s.ackSettings.maxAckDelay) }
+    else s
+  else s
+
+/-- `on_processed_packet`; `(is_ordered, is_largest)` are computed BEFORE the insert; the last
+    statement (`if self.ack_delay_timer.poll_expiration(now).is_ready() { activate }`) is `onTimeout`.
+    The `Outcome` is what `insert_packet_number` reported (events). -/
+def onProcessedPacket (s : State) (p : Processed) : State × AckRanges.Outcome :=
+  (onTimeout (procSchedule (procInsert s p) p (orderedLargest s.ackRanges p.pn).1 (orderedLargest s.ackRanges p.pn).2) p.now,
+   (AckRanges.insertPn s.ackRanges p.pn).2)
 
 /-- `transmission_interest`: forced while `Active` -/
 def forcedInterest (s : State) : Bool := s.transmissionState.isActive
@@ -372,16 +392,19 @@ inductive Out where
   | inserted (o : AckRanges.Outcome)
   deriving Repr, DecidableEq
 
+/-- `Normal::on_transmit`: `did_send_ack = on_transmit(ctx)`; `if did_send_ack { on_transmit_complete(ctx) }` -/
+def transmit (s : State) (c : Constraint) (m : Mode) (now ownPn : Nat) (fits ae pingFits : Bool) : Option (State × Out) :=
+  match onTransmit s c m now fits with
+  | some f =>
+    match onTransmitComplete s c ownPn ae pingFits with
+    | some r => some (r.1, .frame f r.2)
+    | none => none
+  | none => some (s, .none)
+
 /-- one operation; `none` = one of the two `.expect(..)` panics -/
 def step (s : State) : Op → Option (State × Out)
-  | .processed p => let r := onProcessedPacket s p; some (r.1, .inserted r.2)
-  | .transmit c m now ownPn fits ae pingFits =>
-    match onTransmit s c m now fits with
-    | some f =>
-      match onTransmitComplete s c ownPn ae pingFits with
-      | some (s', ping) => some (s', .frame f ping)
-      | none => none
-    | none => some (s, .none)
+  | .processed p => some ((onProcessedPacket s p).1, .inserted (onProcessedPacket s p).2)
+  | .transmit c m now ownPn fits ae pingFits => transmit s c m now ownPn fits ae pingFits
   | .packetAck a =>
     match onPacketAck s a with
     | some s' => some (s', .none)
